@@ -9,12 +9,14 @@ package utils
 //@ import ethtypes "github.com/ethereum/go-ethereum/core/types"
 
 //@ func add(a, b *big.Int) *big.Int
+//@   deterministic[C01.no_node_local_source]
 //@   requires a != nil && b != nil
 //@   modifies nothing
 //@   ensures result != nil && fresh(result) && bigval[result] == bigval[a] + bigval[b]
 //@   panics never
 
 //@ func mul(a, b *big.Int) *big.Int
+//@   deterministic[C01.no_node_local_source]
 //@   requires a != nil && b != nil
 //@   modifies nothing
 //@   ensures result != nil && fresh(result) && bigval[result] == bigval[a] * bigval[b]
@@ -22,12 +24,14 @@ package utils
 
 // The price a transaction declares it is willing to pay (fee cap for dynamic-fee txs).
 //@ func EthTxGasPrice(tx *ethtypes.Transaction) *big.Int
+//@   deterministic[C01.no_node_local_source]
 //@   requires tx != nil
 //@   modifies nothing
 //@   ensures[C05.declared_price,C07.declared_price] result != nil && bigval[result] == txFeeCap(tx)
 //@   panics never
 
 //@ func EthTxFee(tx *ethtypes.Transaction) *big.Int
+//@   deterministic[C01.no_node_local_source]
 //@   requires tx != nil
 //@   modifies nothing
 //@   ensures[C05.declared_fee,C07.declared_fee] result != nil && bigval[result] == txFeeCap(tx) * txGas(tx)
@@ -36,12 +40,14 @@ package utils
 // Effective price = min(tip cap + base fee, fee cap) — the same number go-ethereum's AsMessage computes and the
 // refund uses; for legacy / access-list txs tip cap == fee cap == gas price, so it is the gas price.
 //@ func EthTxEffectiveGasPrice(tx *ethtypes.Transaction, baseFee sdkmath.Int) *big.Int
+//@   deterministic[C01.no_node_local_source]
 //@   requires tx != nil && !inil(baseFee) && iv(baseFee) >= 0
 //@   modifies nothing
 //@   ensures[C05.eff_price,C04.eff_price,C09.eff_price] result != nil && bigval[result] == min(txTipCap(tx) + iv(baseFee), txFeeCap(tx))
 //@   panics never
 
 //@ func EthTxEffectiveFee(tx *ethtypes.Transaction, baseFee sdkmath.Int) *big.Int
+//@   deterministic[C01.no_node_local_source]
 //@   requires tx != nil && !inil(baseFee) && iv(baseFee) >= 0
 //@   modifies nothing
 //@   ensures[C05.eff_fee,C04.eff_fee] result != nil && bigval[result] == min(txTipCap(tx) + iv(baseFee), txFeeCap(tx)) * txGas(tx)
@@ -57,12 +63,21 @@ package utils
 // an account object is a vesting account (of any kind)
 //@ ghost macro accIsVesting(account sdk.AccountI) bool = typeof(account) == type(*vestingtypes.BaseVestingAccount) || implements(account, type(vesting.VestingAccount))
 
-// The guard as the code implements it: module accounts are never destroyable, other non-vesting accounts always are; for
-// a vesting account the answer depends on the WALL CLOCK (time.Now()), which this function reads itself — it has no
-// block-time input. The block-time statement of property C15 is on the caller (x/evm/vm DestroyAccount).
+// The guard, judged at time `at` (the block time when called from the StateDB): module accounts are never destroyable,
+// vesting accounts (any kind) exactly when their vesting period has ended at `at`, every other account always.
+//@ import time "time"
+//@ func CheckIfAccountIsSuitableForDestroyingAtTime(account sdk.AccountI, at time.Time) (destroyable bool, reason string)
+//@   deterministic[C01.no_node_local_source]
+//@   modifies nothing
+//@   ensures[C15.guard_module] implements(account, type(sdk.ModuleAccountI)) ==> !destroyable
+//@   ensures[C15.guard_plain_accounts] (!implements(account, type(sdk.ModuleAccountI)) && !accIsVesting(account)) ==> destroyable
+//@   ensures[C15.guard_vesting_at_time] (!implements(account, type(sdk.ModuleAccountI)) && accIsVesting(account)) ==> (destroyable == (accObjEndTime[payload(account)] <= timeUnix(at)))
+//@   ensures[C15.guard_reason] !destroyable ==> len(reason) > 0
+//@   panics[C15.guard_nil] iff account == nil || payload(account) == nil
+
+// The one-argument form judges at the wall clock; it is not used on the execution path any more.
 //@ func CheckIfAccountIsSuitableForDestroying(account sdk.AccountI) (destroyable bool, reason string)
 //@   modifies nothing
 //@   ensures[C15.guard_module] implements(account, type(sdk.ModuleAccountI)) ==> !destroyable
 //@   ensures[C15.guard_plain_accounts] (!implements(account, type(sdk.ModuleAccountI)) && !accIsVesting(account)) ==> destroyable
-//@   ensures[C15.guard_reason] !destroyable ==> len(reason) > 0
 //@   panics[C15.guard_nil] iff account == nil || payload(account) == nil
